@@ -224,17 +224,29 @@ def run_scene(c):
                 for s, b in zip(starts, blocks):
                     dd = d[s:s + in_rows]
                     kwf = dict(kw, rows_per_scan=rps, maximum_weight_mode=mwm)
-                    got = dask_ewa._delayed_fornav(b, area, ysl, xsl, dd, pyfill, kwf)
+                    seen = {}
+                    orig = dask_ewa.fornav_weights_and_sums_wrapper
+
+                    def spy(cols_, rows_, data_, weights_, accums_, *a_, **k_):
+                        # observe the geolocation and grid shape _delayed_fornav really hands to the kernel
+                        seen["cols"], seen["rows"], seen["shape"] = np.array(cols_), np.array(rows_), weights_.shape
+                        return orig(cols_, rows_, data_, weights_, accums_, *a_, **k_)
+                    dask_ewa.fornav_weights_and_sums_wrapper = spy
+                    try:
+                        got = dask_ewa._delayed_fornav(b, area, ysl, xsl, dd, pyfill, kwf)
+                    finally:
+                        dask_ewa.fornav_weights_and_sums_wrapper = orig
                     entry = {"empty": bool(isinstance(got[0], tuple))}
                     if not entry["empty"]:
                         entry["weights"] = hexflat(got[0])
                         entry["accums"] = hexflat(got[1])
-                    if not isinstance(b[0], tuple):
-                        cc = b[0] - xsl.start if xsl.start != 0 else b[0]
-                        rr = b[1] - ysl.start if ysl.start != 0 else b[1]
+                        entry["shape"] = list(got[0].shape)
+                    if seen:
                         with np.errstate(invalid="ignore"):
                             valid = ~np.isnan(dd) & ~(dd == dt.type(fill))
-                        entry["fp"] = footprints(np.ascontiguousarray(cc), np.ascontiguousarray(rr), (nr, nc), rps, kw, valid)
+                        entry["fp"] = footprints(np.ascontiguousarray(seen["cols"]), np.ascontiguousarray(seen["rows"]),
+                                                 tuple(seen["shape"]), rps, kw, valid)
+                        entry["kshape"] = list(seen["shape"])
                     per_in.append(entry)
                 sub.append({"y0": y0, "x0": x0, "nr": nr, "nc": nc, "in": per_in})
                 x0 += nc
